@@ -83,7 +83,7 @@ func buildFamilies(thorough bool) []family {
 	if !thorough {
 		universe(4, 5, []int32{0, 1, 8, 100}, []int32{1, 10, 250}, [][]int32{{8, 100, 8, 100}, {100, 8, 1, 250}}, "all")
 	} else {
-		universe(4, 7, []int32{-1, 0, 1, 8, 100, 250}, []int32{1, 2, 10, 250}, [][]int32{{8, 100, 8, 100}, {100, 8, 1, 250}, {0, 100, 250, 5}}, "all")
+		universe(4, 7, []int32{-1, 0, 1, 8, 100, 250}, []int32{1, 2, 10, 250}, [][]int32{{8, 100, 8, 100}, {100, 8, 1, 250}, {2, 100, 250, 5}}, "all")
 		universe(5, 7, []int32{0, 8, 100}, []int32{1, 250}, nil, "reduced")
 	}
 	return fams
@@ -106,7 +106,8 @@ func explicitStateCases(run *common.Run) *part {
 		order += len(f.Configs)
 		var st, ed, rp, ev, closed, ran, classes, tbl, truncated int64
 		maxDepth := 0
-		for _, r := range results {
+		var cand []int
+		for i, r := range results {
 			if r == nil {
 				continue
 			}
@@ -133,8 +134,15 @@ func explicitStateCases(run *common.Run) *part {
 				p.Violations = append(p.Violations, cv.v)
 			}
 			p.InfraErrors = append(p.InfraErrors, r.infra...)
-			if r.sample != nil && len(p.Samples) < 10 && (len(p.Samples) < 2 || ran%97 == 0) {
-				p.Samples = append(p.Samples, r.sample)
+			if r.sample != nil {
+				cand = append(cand, i)
+			}
+		}
+		// two samples per family: the first configuration that has one and the middle one
+		if len(cand) > 0 {
+			p.Samples = append(p.Samples, results[cand[0]].sample)
+			if len(cand) > 2 {
+				p.Samples = append(p.Samples, results[cand[len(cand)/2]].sample)
 			}
 		}
 		if ran < int64(len(f.Configs)) || truncated > 0 {
